@@ -123,8 +123,9 @@ def check_contour(case, ctx):
             pt = float(sp.ndtr(target))
             lo, hi = cdf(x - h), cdf(x + h)
             if spec[k]["family"] == "VonMises":
-                # circular: cdf wraps at mu +- pi
-                if abs(p - pt) <= 1e-8 or abs(abs(p - pt) - 1) <= 1e-8:
+                # circular: at the branch cut mu +- pi the levels 0 and 1 are the same direction; anywhere else the
+                # model's own (non-periodic) cdf must return the level itself
+                if abs(p - pt) <= 1e-8 or (abs(abs(p - pt) - 1) <= 1e-8 and min(pt, 1 - pt) <= 1e-6):
                     us[k] = target
                     continue
             if lo - 1e-15 <= pt <= hi + 1e-15:
